@@ -32,6 +32,7 @@ struct Hist {
 Hist *H = nullptr;
 int g_nframes_file = 0;
 int g_nbeads = 2;
+double g_t0 = 0.0, g_dt = 1.0;  // time of frame i (1-based) = g_t0 + i * g_dt
 
 class VReader : public TrajectoryReader {
  public:
@@ -48,7 +49,7 @@ class VReader : public TrajectoryReader {
     if (ok) {
       step = next_++;
       top.setStep(step);
-      top.setTime(double(step));
+      top.setTime(g_t0 + double(step) * g_dt);
       for (auto &b : top.Beads()) b.setPos(Eigen::Vector3d(double(step), double(b.getId()), 0.5));
       top.setBox(Eigen::Matrix3d::Identity() * (10.0 + double(step)));
     }
@@ -154,6 +155,12 @@ void write_all(int fd, const std::string &s) {
     args.push_back("--first-frame");
     args.push_back(std::to_string(int(c.at("first"))));
   }
+  if (c.contains("begin") && !c.at("begin").is_null()) {
+    g_t0 = c.value("t0", 0.0);
+    g_dt = c.value("dt", 1.0);
+    args.push_back("--begin");
+    args.push_back(fmt("%.17g", double(c.at("begin"))));
+  }
   if (int(c.at("nframes")) >= 0) {
     args.push_back("--nframes");
     args.push_back(std::to_string(int(c.at("nframes"))));
@@ -181,6 +188,13 @@ void write_all(int fd, const std::string &s) {
 std::vector<long> selected(const json &c) {
   long N = c.at("frames"), f = c.at("first"), n = c.at("nframes");
   long first = f > 1 ? f : 1;
+  if (c.contains("begin") && !c.at("begin").is_null()) {
+    // --begin: frames with time < begin are skipped (together with, not in addition to, --first-frame)
+    double t0 = c.value("t0", 0.0), dt = c.value("dt", 1.0), b = c.at("begin");
+    long i = 1;
+    while (i <= N && t0 + double(i) * dt < b) ++i;
+    first = std::max(first, i);
+  }
   std::vector<long> S;
   for (long i = first; i <= N; ++i) {
     if (n >= 0 && long(S.size()) >= n) break;
@@ -246,7 +260,10 @@ Result run_sched(const json &c) {
   long N = c.at("frames"), f = c.at("first");
   int nt = c.at("nt");
   bool ordered = c.at("ordered");
-  bool expect_error = (std::max(f, 1L) > N);
+  json c_nolimit = c;
+  c_nolimit["nframes"] = -1;
+  bool expect_error = selected(c_nolimit).empty();  // no frame at or after the requested start: "trajectory was too short"
+  if (c.contains("begin") && !c.at("begin").is_null()) r.cls("has-begin");
   r.cls(ordered ? "ordered" : "unordered");
   r.cls("nt=" + std::to_string(nt));
   if (int(c.at("nframes")) >= 0) r.cls("has-nframes");
@@ -327,6 +344,14 @@ json gen_sched() {
   if (rbool(55)) nf = pick({0, 1, 2, 3, frames - 1, frames, frames + 2});
   if (nf < -1) nf = 0;
   c["nframes"] = nf;
+  if (rbool(30)) {
+    // times t0 + i*dt built from small integers (exact in binary), begin on / between / before / after the frame times
+    double dt = pick({1.0, 0.5, 2.0, 0.25}), t0 = pick({0.0, 0.0, -3.0, 10.0});
+    int k = ri(-1, 2 * frames + 3);
+    c["t0"] = t0;
+    c["dt"] = dt;
+    c["begin"] = t0 + 0.5 * dt * double(k);
+  }
   int len = rcount(0, 60);
   std::vector<int> ch;
   bool bias = rbool(40);
